@@ -441,15 +441,16 @@ func (g *gateInfo) nonNilOp(v ssa.Value, at ssa.Instruction) bool {
 			return true // element of the validated document's operation list (gqlparser never stores nil there)
 		}
 	}
+	// the value itself passed a nil test that dominates the return (`if operation != nil { return operation, nil }`)
+	if ok, _ := g.r.nonNilAt(v, at); ok {
+		return true
+	}
 	if p, ok := v.(*ssa.Phi); ok {
 		for _, e := range p.Edges {
 			if !g.nonNilOp(e, at) {
 				return false
 			}
 		}
-		return true
-	}
-	if ok, _ := g.r.nonNilAt(v, at); ok {
 		return true
 	}
 	return false
